@@ -49,7 +49,7 @@ def EXHAUSTIVE(tier):
 
 def gen_cases(tier, seed):
     cases = [{"kind": "switches", "part": i} for i in range(8)]
-    cases += [{"kind": "values", "table": t} for t in ["validators", "enforcers", "parameters", "form_parameters", "pydantic", "inputfile", "uijson_two_parents"]]
+    cases += [{"kind": "values", "table": t} for t in ["validators", "enforcers", "parameters", "form_parameters", "pydantic", "inputfile", "uijson_two_parents", "inputfile_multi"]]
     n = 140 if tier == "quick" else 2100
     for i in range(n):
         cases.append({"kind": "stateless", "target": ["inputfile", "inputvalidation", "parameter", "formparameter", "enforcerpool", "validators", "inputvalidation_oneof", "cross_forms", "inputfile_reassigned"][i % 9], "length": 8 + (i % 5) * 3 if tier == "quick" else 10 + (i % 5) * 5})
@@ -234,7 +234,7 @@ def do_values(case, rec, rng, d):
     s = scene(d)
     t = case["table"]
     try:
-        {"validators": values_validators, "enforcers": values_enforcers, "parameters": values_parameters, "form_parameters": values_form_parameters, "pydantic": values_pydantic, "inputfile": values_inputfile, "uijson_two_parents": values_uijson_two_parents}[t](rec, s, rng)
+        {"validators": values_validators, "enforcers": values_enforcers, "parameters": values_parameters, "form_parameters": values_form_parameters, "pydantic": values_pydantic, "inputfile": values_inputfile, "uijson_two_parents": values_uijson_two_parents, "inputfile_multi": values_inputfile_multi}[t](rec, s, rng)
     finally:
         s["ws"].close()
         s["ws2"].close()
@@ -535,6 +535,73 @@ def values_inputfile(rec, s, rng):
                 rec.check("C15.rejected-mutates", before == after, op="InputFile.set_data_value", cls="InputFile", attr=key, detail=f"rejected {key}={short(canon(val_key(val)))} changed stored data/form: {short(before)} -> {short(after)}")
 
 
+def values_inputfile_multi(rec, s, rng):
+    """Multi-select object / data forms: every element of the list is subject to the membership rules, whichever
+    entry point the list comes through (set_data_value, the data setter, the constructor)."""
+    from geoh5py.ui_json import templates
+    from geoh5py.ui_json.input_file import InputFile
+
+    def ui_of(value=None):
+        ui = base_ui(s)
+        ui["many"] = templates.object_parameter(label="many", multi_select=True, value=[str(s["A"].uid)] if value is None else value)
+        return ui
+
+    rows = [
+        ("members", lambda: [s["A"].uid, s["B"].uid], True),
+        ("one-member", lambda: [s["B"].uid], True),
+        ("entities", lambda: [s["A"], s["B"]], True),
+        ("unknown-uuid", lambda: [uuid.uuid4()], False),
+        ("member+unknown", lambda: [s["A"].uid, uuid.uuid4()], False),
+        ("unknown+member", lambda: [uuid.uuid4(), s["B"].uid], False),
+        ("foreign-entity", lambda: [s["A"], s["C"]], False),
+    ]
+    table = []
+    for label, mk, expect in rows:
+        def by_set(mk=mk):
+            in_file = InputFile(ui_json=deepcopy_ui(ui_of()), validate=True)
+            _ = in_file.data
+            in_file.set_data_value("many", mk())
+
+        def by_data(mk=mk):
+            in_file = InputFile(ui_json=deepcopy_ui(ui_of()), validate=True)
+            data = dict(in_file.data)
+            data["many"] = mk()
+            in_file.data = data
+
+        def by_ctor(mk=mk):
+            val = [str(getattr(v, "uid", v)) for v in mk()]
+            in_file = InputFile(ui_json=deepcopy_ui(ui_of(val)), validate=True)
+            _ = in_file.data
+
+        table.append((f"InputFile.many:set_data_value-{label}-{'ok' if expect else 'bad'}", by_set, expect))
+        table.append((f"InputFile.many:data-{label}-{'ok' if expect else 'bad'}", by_data, expect))
+        if label != "foreign-entity":
+            table.append((f"InputFile.many:ctor-{label}-{'ok' if expect else 'bad'}", by_ctor, expect))
+    judge_table(rec, table, "inputfile")
+    # a rejected list leaves data and form unchanged
+    in_file = InputFile(ui_json=deepcopy_ui(ui_of()), validate=True)
+    _ = in_file.data
+    for label, mk, expect in rows:
+        if expect:
+            continue
+        for how in ("set", "data"):
+            before = (canon({k: val_key(v) for k, v in in_file.data.items()}), canon(form_snapshot(in_file.ui_json)))
+            val = mk()
+
+            def go(how=how, val=val):
+                if how == "set":
+                    in_file.set_data_value("many", val)
+                else:
+                    data = dict(in_file.data)
+                    data["many"] = val
+                    in_file.data = data
+
+            v, err = verdict(go)
+            after = (canon({k: val_key(v2) for k, v2 in in_file.data.items()}), canon(form_snapshot(in_file.ui_json)))
+            if v == "reject":
+                rec.check("C15.rejected-mutates", before == after, op="InputFile." + how, cls="InputFile", attr="many", detail=f"rejected many={label} changed stored data/form: {short(before)} -> {short(after)}")
+
+
 def val_key(v):
     if isinstance(v, (list, tuple)):
         return [val_key(x) for x in v]
@@ -584,7 +651,16 @@ def st_inputfile(case, rec, rng, s):
         from geoh5py.ui_json import templates
         from geoh5py.ui_json.constants import default_ui_json
 
-        if rng.random() < 0.6:
+        how = rng.random()
+        if how < 0.3:
+            # the earlier form held a value its own rules refuse: the read is rejected, then the form is replaced
+            first = deepcopy_ui(base_ui(s))
+            first["choice"]["value"] = "zzz"
+            long_ = InputFile(ui_json=first, validate=True)
+            v0 = verdict(lambda: long_.data)
+            rec.check("C15.verdict", v0[0] == "reject", op="inputfile", cls="InputFile.choice", attr="read-of-a-bad-form", detail=f"a form whose stored choice is not in its list was read: {v0}")
+            rec.see("forms-reassigned:after-a-rejected-read")
+        elif how < 0.7:
             first = deepcopy(default_ui_json)
             first.update({"title": "earlier form", "geoh5": s["ws"], "m": templates.integer_parameter(value=4, label="m"),
                           "choice": templates.choice_string_parameter(choice_list=("x", "y"), value="x", label="another choice"),
@@ -613,6 +689,12 @@ def st_inputfile(case, rec, rng, s):
         before = (canon({k: val_key(v) for k, v in long_.data.items()}), canon(form_snapshot(long_.ui_json)))
         lv = verdict(lambda: long_.set_data_value(key, val))
         compare_verdicts(rec, "InputFile", key, f"set_data_value({key}, {short(canon(val_key(val)), 50)}) after {len(seq) - 1} earlier calls", lv, fv)
+        if lv[0] == "accept" and fv[0] == "accept":
+            lf, ff = form_snapshot(long_.ui_json).get(key), form_snapshot(fresh.ui_json).get(key)
+            if val is None and isinstance(lf, dict) and isinstance(ff, dict):
+                # None switches the form off and leaves the last value in place: only the switches are comparable
+                lf, ff = ({k: v for k, v in f.items() if k not in ("value", "property")} for f in (lf, ff))
+            rec.check("C15.stateful", canon(lf) == canon(ff), op="InputFile", cls="InputFile", attr=key + ":form", detail=f"set_data_value({key}, {short(canon(val_key(val)), 50)}) after {len(seq) - 1} earlier calls leaves the form entry {short(canon(lf))}; on a fresh object {short(canon(ff))}")
         if lv[0] == "reject":
             after = (canon({k: val_key(v) for k, v in long_.data.items()}), canon(form_snapshot(long_.ui_json)))
             rec.check("C15.rejected-mutates", before == after, op="InputFile.set_data_value", cls="InputFile", attr=key, detail=f"rejected value changed stored data/form")
